@@ -342,7 +342,18 @@ structure MigWF (s : State) (frm to : Addr) : Prop where
 section init2
 variable {frm to : Addr}
 
-theorem unbId_ExtRel (c : Cfg) (hc : c.rewriteUnbId = true) (s : State) (wf : MigWF s frm to) :
+/-- consistency of the unbonding-id index with the entries of the source's records, and no id pointing at the target -/
+structure IdWF (s : State) (frm to : Addr) : Prop where
+  id_ubd : ∀ v es e, get s.ubds (frm, v) = some es → e ∈ es → get s.unbId e.2.2 = some (frm, v, none)
+  id_red : ∀ a b es e, get s.reds (frm, a, b) = some es → e ∈ es → get s.unbId e.2.2 = some (frm, a, some b)
+  id_of : ∀ id r, get s.unbId id = some r → r.1 = frm →
+    (∃ v es e, get s.ubds (frm, v) = some es ∧ e ∈ es ∧ e.2.2 = id) ∨
+    (∃ a b es e, get s.reds (frm, a, b) = some es ∧ e ∈ es ∧ e.2.2 = id)
+  id_to : ∀ id r, get s.unbId id = some r → r.1 ≠ to
+
+theorem MigWF.idWF {s : State} (wf : MigWF s frm to) : IdWF s frm to := ⟨wf.id_ubd, wf.id_red, wf.id_of, wf.id_to⟩
+
+theorem unbId_ExtRel (c : Cfg) (hc : c.rewriteUnbId = true) (s : State) (wf : IdWF s frm to) :
     ExtRel id (swP frm to) s.unbId (stakingExecute c s frm to).unbId := by
   intro id
   simp only [_root_.id]
@@ -487,7 +498,7 @@ theorem sim_init (c : Cfg) (hc1 : c.rewriteDelIdx = true) (hc2 : c.rewriteUnbId 
     show (stakingExecute c (bankExecute c s frm to) frm to).redQ = _
     rw [exec_redQ c hq1 hq2]
     exact queue_exact hne s.reds s.redQ wf.redQ_nodup wf.redQ_of wf.redQ_to
-  case unbId => exact unbId_ExtRel c hc2 (bankExecute c s frm to) wfB
+  case unbId => exact unbId_ExtRel c hc2 (bankExecute c s frm to) wfB.idWF
   case wd =>
     intro a
     show get (stakingExecute c (bankExecute c s frm to) frm to).wdAddr (sw frm to a) = _
